@@ -126,9 +126,12 @@ type vFakeDB struct {
 
 var vDBs map[*leveldb.DB]*vFakeDB
 var vDisk map[string]*vFakeDB // OpenFile: path -> contents
+var vDBsMu sync.Mutex         // the handle table is harness state, not part of goleveldb
 
 func vDBOf(db *leveldb.DB) *vFakeDB {
+	vDBsMu.Lock()
 	f := vDBs[db]
+	vDBsMu.Unlock()
 	if f == nil {
 		vFatal("unknown leveldb handle")
 	}
@@ -139,6 +142,8 @@ func stubNewMemStorage() storage.Storage { return nil }
 
 func stubLdbOpen(stor storage.Storage, o *opt.Options) (*leveldb.DB, error) {
 	db := new(leveldb.DB)
+	vDBsMu.Lock()
+	defer vDBsMu.Unlock()
 	if vDBs == nil {
 		vDBs = map[*leveldb.DB]*vFakeDB{}
 	}
@@ -148,6 +153,8 @@ func stubLdbOpen(stor storage.Storage, o *opt.Options) (*leveldb.DB, error) {
 
 func stubLdbOpenFile(path string, o *opt.Options) (*leveldb.DB, error) {
 	db := new(leveldb.DB)
+	vDBsMu.Lock()
+	defer vDBsMu.Unlock()
 	if vDBs == nil {
 		vDBs = map[*leveldb.DB]*vFakeDB{}
 	}
